@@ -24,6 +24,8 @@ func init() {
 		ruleL8(c, "C06.L8")
 		ruleL9(c, "C06.L9")
 		ruleL10(c, "C06.L10")
+		// a lock taken for a handle that turns out stale is given back: otherwise the inode is blocked for ever
+		ruleG3(c, "C06.L11")
 	}
 }
 
